@@ -478,6 +478,10 @@ def write_evidence(ctx, level='proof', checker_cmd='', assumptions=None, explana
 def finish(ctx, level='proof', checker_cmd='', assumptions=None, explanation=''):
     """Print KNOWN-FINDING / VIOLATION lines, write evidence and replay; exit code."""
     write_evidence(ctx, level, checker_cmd, assumptions, explanation)
+    for stale in ('violation', 'unproved'):
+        sp = os.path.join(VERIF, 'replays', f'{ctx.pid}-seed{ctx.seed}-{stale}.json')
+        if os.path.exists(sp):
+            os.remove(sp)
     for fid, (f, rec) in sorted(ctx.known_hits.items()):
         print(f"KNOWN-FINDING: property={ctx.pid} {fid}: {f['what']}")
     rdir = os.path.join(VERIF, 'replays')
